@@ -3,7 +3,7 @@ import re
 CONFIG = dict(
     bin="c02",
     drv="drv_c02",
-    lean_modules=["MahfModel.Props.C02"],
+    lean_modules=["MahfModel.Props.C02", "MahfModel.Props.C02Multi"],
     namespaces=["MahfModel.Props.C02"],
     shrink_lists=["mops", "hold", "inner"],
     level="proof",
@@ -15,18 +15,26 @@ CONFIG = dict(
           "get_value, set_value and illegal &mut requests, each followed by a lock dump; (1b) the four *_value accessors "
           "(try_borrow_value, try_borrow_value_mut, borrow_value, borrow_value_mut, also through parent()) as guard sources "
           "mixed with the plain accessors: every sequence of 3 (thorough: 4) requests over a 15-request alphabet after the "
-          "same three prefixes (site vguards); (2) multi-borrow: every "
+          "same three prefixes (site vguards); (2) multi-borrow through EVERY public entry point - StateRegistry::"
+          "try_get_multiple_mut and get_multiple_mut (sites multi-u*), the public trait method MultiStateTuple::try_get_mut "
+          "called directly on the registry (sites multi-trait-u*), and the same three on the State wrapper by method syntax / "
+          "deref coercion (sites multi-state-u*): every "
           "tuple of arity 2..8 over a 2-type universe (508) and of arity 2..4 over 4 types (336), each with every "
-          "subset of the universe present, plus 22 fixed tuples of arity 5..8 over 8 types (distinct permutations and "
+          "subset of the universe present (State wrapper over 4 types, quick: all or all-but-one present), plus 22 fixed "
+          "tuples of arity 5..8 over 8 types (distinct permutations and "
           "repetitions at several positions) with all / all-but-one / random subsets present, flat and split over two "
+          "scopes; (2b) the three registry entry points on a registry reached by parent_mut() (site multi-parent): three "
+          "scopes in five layouts (shadowing, types only below / only above the addressed registry, empty scopes), every "
+          "tuple of arity 2..3 (thorough: ..4) over 4 types, every distance 0..3 (3 = no such parent); "
           "scopes; (3) every nesting of holding / with_inner_state of depth 1..3 with ok/err at each level and a body "
           "operation at each level (re-insert of the held type, removal, none), under three scope layouts, followed by "
           "probe holdings (thorough: also guarded value accesses gset/gget as body operations); (4) seeded random machine "
           "histories of length 20..80 (1000 quick / 20000 thorough) over chains of 1..6 scopes with parent() distances "
-          "0..4, plain and *_value guards, guarded value accesses inside bodies. "
+          "0..4, plain and *_value guards, guarded value accesses inside bodies, multi-borrows through a random entry point "
+          "on a random parent_mut(). "
           "Non-trivial: at least one guard request or holding/inner/multi statement; distinct = distinct canonical input."),
     nontrivial=lambda inp: re.search(r"\((bor|bormut|borp|bormutp|parbor|parbormut|borv|borvmut|borvp|borvmutp|parborv|parborvmut) "
-                                     r"|\(hold |\(inner |\(multi ", inp) is not None,
+                                     r"|\(hold |\(inner |\(multi[pv]? ", inp) is not None,
     trusted_base=[
         "RefCell's implementation (the flag automaton is modelled: shared iff no writer, exclusive iff no writer and no reader)",
         "Ref::map / RefMut::map keep the flag of the guard they are mapped from (the *_value accessors are modelled as "
@@ -34,8 +42,13 @@ CONFIG = dict(
         "safe Rust cannot leak a guard past the registry except by mem::forget (not modelled); lifetimes / the borrow "
         "checker decide which requests compile - the harness answers 'illegal' for &mut requests while guards live",
         "Marker<T> cannot be named by a client: its presence is observed only through later holdings",
-        "the memory model / the unsafe block of try_get_multiple_mut: the harness compares the returned addresses "
-        "pairwise (alias) and writes through every reference; Miri is not run"],
+        "the memory model / the unsafe block of MultiStateTuple::try_get_mut: the harness compares the returned addresses "
+        "pairwise (alias) and writes through every reference; Miri is not run",
+        "State has no multi-borrow method of its own (derive_more Deref/DerefMut to its registry): the model maps the "
+        "st / stp / sttup routes to the registry functions; the harness calls them on &mut State by method syntax and by "
+        "deref coercion, so an inherent State method shadowing them would be exercised",
+        "the tuple types of the harness (8 client types, the instantiations of c01_reg.rs) stand for all tuple types: "
+        "impl_multi_state_tuple! is one macro body for every arity 2..8"],
     assumptions=["SplitMix64-seeded generator", "state values are u64 newtypes modelled as Nat (no overflow in the generators)"],
 )
 CONFIG.update(
@@ -47,22 +60,35 @@ CONFIG.update(
                 "value_access_next_to_guards / _absent / _parent (try_get_value, get_value, set_value, parent().try_get_value "
                 "next to ANY live guard set: granted iff compatible, refused without writing otherwise), noninterference across "
                 "types and scopes, release_restores, write_then_read and write_then_value_read, multi_ok_iff / error kind / "
-                "distinct cells for key lists of any length, holding_restores_partial for every body that does not nest a "
+                "distinct cells for key lists of any length, the same clause for EVERY public entry point (Props/C02Multi.lean over "
+                "Model/BorrowMulti.lean, which keeps the call structure trait method <- try_get_multiple_mut <- get_multiple_mut: "
+                "multi_every_entry_refuses_repeats - trait method, registry front-end and panicking accessor each refuse a "
+                "repeated type by themselves -, multi_every_entry_ok_iff, multi_every_entry_missing, "
+                "multi_every_entry_distinct_cells, multi_entries_agree, and for a request issued on any parent_mut(): "
+                "multi_via_granted_iff, multi_via_refused_unchanged, multi_via_frame, multi_via_refines, flag_inv_with_multi, "
+                "multi_machine_conservative), holding_restores_partial for every body that does not nest a "
                 "holding of the same type (ok and err bodies, nested holdings of other types, inner scopes), and proved "
                 "counterexamples for both recorded symptoms of the nested same-type case (recorded finding). In addition a "
                 "PROPOSED repair of holding (level of the source scope counted from the root instead of a per-type marker; "
                 "Model/BorrowRepair.lean, patch in known_findings.d/, NOT applied to the code) is proved to be the abstract "
                 "machine for EVERY body incl. nested same-type holdings (repaired_holding_refines, "
                 "repaired_holding_restores_all_bodies, repaired_holding_on_witnesses). The model is tied to /repo by running the "
-                "real State with live guards from all eight borrow accessors, all multi-borrow tuples and all helper nestings, "
+                "real State with live guards from all eight borrow accessors, all multi-borrow tuples through all entry points "
+                "(trait method, registry front-ends, State wrapper, parent registries) and all helper nestings, "
                 "diffing against the compiled model (K) and against the abstract machine 'stack of maps + guard set, many "
-                "readers xor one writer, holding restores into the scope it took from' (O)."),
+                "readers xor one writer, a multi-borrow through any entry point is granted iff no type repeats and all are "
+                "visible from the addressed registry and then writes each innermost binding once, holding restores into the "
+                "scope it took from' (O)."),
     level_note=("Trusted: Lean kernel; RefCell represented by its flag automaton; Ref::map/RefMut::map keep the flag; harness + "
                 "driver printing. The theorems are about the model; agreement with the code is checked on the generated "
                 "histories only. There is no theorem that the code-shaped machine equals the abstract machine on ALL histories "
                 "(the clause theorems cover its content piecewise; for the repaired holding the statement part is proved). Not "
                 "verified: RefCell, that safe Rust cannot leak a guard past the registry (mem::forget leaves a cell locked; not "
-                "modelled), the memory model (no Miri run), the typed State wrappers (populations, random_mut, log, "
+                "modelled), the memory model (no Miri run; two returned references to one object are detected by address "
+                "comparison), multi-borrow entry points inside holding / with_inner_state bodies other than "
+                "try_get_multiple_mut / get_multiple_mut (the trait-method and parent routes are top-level requests), "
+                "MultiStateTuple::distinct() as a function of its own (only through the entry points), when a type both "
+                "repeats and is missing the model fixes the code's order (repetition reported first), the typed State wrappers (populations, random_mut, log, "
                 "best_individual: one-line calls of borrow/borrow_mut, not exercised here). partial: nested holding of the same "
                 "type is outside holding_restores_partial and is a recorded finding. Observed, outside the statement (a body "
                 "that 'fails' is read as returning Err): a body that PANICS unwinds through holding, the held state is dropped "
